@@ -5,6 +5,8 @@ import (
 	"go/constant"
 	"go/token"
 	"go/types"
+	"os"
+	"regexp"
 	"sort"
 	"strings"
 
@@ -37,6 +39,49 @@ func rewrites(p *Prog, v ssa.Value, seen map[ssa.Value]bool, depth int, out *[]t
 			rewrites(p, e, seen, depth+1, out)
 		}
 	case *ssa.Slice:
+		// a cut of leading characters that was chosen by looking at letters or digits of the text
+		// (s[0] == 'v', HasPrefix(s, "v")) removes part of the version, not an operator or a separator
+		if k, ok := constInt(x.Low); ok && k >= 1 && x.Low != nil {
+			alnum := func(c int64) bool {
+				return c >= '0' && c <= '9' || c >= 'a' && c <= 'z' || c >= 'A' && c <= 'Z'
+			}
+			if domEdges(x.Block(), func(cond ssa.Value, tv bool) bool {
+				switch c := cond.(type) {
+				case *ssa.BinOp:
+					if c.Op != token.EQL || !tv {
+						return false
+					}
+					for _, pr := range [][2]ssa.Value{{c.X, c.Y}, {c.Y, c.X}} {
+						src := pr[0]
+						if cv, isConv := src.(*ssa.Convert); isConv {
+							src = cv.X
+						}
+						var lx, li ssa.Value
+						switch y := src.(type) {
+						case *ssa.Lookup:
+							lx, li = y.X, y.Index
+						case *ssa.Index:
+							lx, li = y.X, y.Index
+						}
+						kc, ok2 := constInt(pr[1])
+						if lx != nil && ok2 && lx == x.X && alnum(kc) {
+							if i, ok := constInt(li); ok && i < k {
+								return true
+							}
+						}
+					}
+				case *ssa.Call:
+					if f := c.Call.StaticCallee(); f != nil && extName(f) == "strings.HasPrefix" && tv && c.Call.Args[0] == x.X {
+						if lit, ok := constString(c.Call.Args[1]); ok && int64(len(lit)) == k && strings.ContainsAny(lit, "abcdefghijklmnopqrstuvwxyzABCDEFGHIJKLMNOPQRSTUVWXYZ0123456789") {
+							return true
+						}
+					}
+				}
+				return false
+			}) {
+				*out = append(*out, textStep{"a cut of leading letters or digits", x.Pos()})
+			}
+		}
 		rewrites(p, x.X, seen, depth+1, out)
 	case *ssa.UnOp:
 		if x.Op == token.MUL {
@@ -117,6 +162,11 @@ func rewrites(p *Prog, v ssa.Value, seen map[ssa.Value]bool, depth int, out *[]t
 		switch name {
 		case "strings.ToLower", "strings.ToUpper", "strings.Title", "strings.ToTitle", "strings.Map", "strings.Replace", "strings.Repeat":
 			*out = append(*out, textStep{name, x.Pos()})
+		case "strings.TrimPrefix", "strings.TrimSuffix", "strings.TrimLeft", "strings.TrimRight", "strings.Trim", "strings.CutPrefix", "strings.CutSuffix":
+			// cutting letters or digits off the bound (a leading v, a trailing suffix) changes the version it denotes
+			if lit, ok := constString(x.Call.Args[1]); ok && strings.ContainsAny(lit, "abcdefghijklmnopqrstuvwxyzABCDEFGHIJKLMNOPQRSTUVWXYZ0123456789") {
+				*out = append(*out, textStep{name + "(" + lit + ")", x.Pos()})
+			}
 		case "strings.ReplaceAll":
 			// separator normalisation ("," -> " ") is fine; anything touching letters/digits is a rewrite
 			old, ok1 := constString(x.Call.Args[1])
@@ -183,8 +233,14 @@ func ctorMaps(e *Eco) map[string]bool {
 					switch extName(f) {
 					case "strings.ToLower", "strings.ToUpper":
 						out[extName(f)] = true
+						walk(c, d+1)
 					case "strings.TrimSpace":
 						walk(c, d+1)
+					case "strings.TrimPrefix", "strings.TrimSuffix", "strings.TrimLeft", "strings.TrimRight", "strings.Trim", "strings.CutPrefix", "strings.CutSuffix":
+						if lit, ok := constString(c.Call.Args[1]); ok && c.Call.Args[0] == v {
+							out[extName(f)+"("+lit+")"] = true
+							walk(c, d+1)
+						}
 					}
 				}
 			}
@@ -455,6 +511,454 @@ func ruleRoute(p *Prog, r *Report) {
 	}
 	r.Floor("R-ROUTE", 4)
 	_ = n
+	ruleRouteLang(p, r)
+}
+
+// ---- R-ROUTE (language form) -------------------------------------------------------------------------------
+//
+// Any test on the constraint text that is evaluated before the operator table and sends the constraint
+// to another parser must be false for "comparator + valid version". The tests that can be read as a
+// regular language of the text (contains one of a set of characters, ends with a literal, the part
+// before the first / after the last separator does so) are intersected with every whole-input pattern
+// of the version constructor on the product automaton; a common string is a valid version that is
+// routed away, and it is printed. Tests of other shapes are left to the rules above.
+
+// regexOfValue resolves a *regexp.Regexp value to its constant pattern (set by the rule)
+var regexOfValue func(v ssa.Value) string
+
+type routeText struct {
+	kind string // "whole", "before", "afterlast"
+	sep  string
+}
+
+func decodeRouteText(v, text ssa.Value, depth int) (routeText, bool) {
+	if v == text {
+		return routeText{kind: "whole"}, true
+	}
+	if depth > 3 {
+		return routeText{}, false
+	}
+	indexOf := func(x ssa.Value, fname string) (string, bool) {
+		// x = strings.<fname>(text, sep) possibly + 1
+		if bo, ok := x.(*ssa.BinOp); ok && bo.Op == token.ADD {
+			if k, ok := constInt(bo.Y); ok && k == 1 {
+				x = bo.X
+			}
+		}
+		c, ok := x.(*ssa.Call)
+		if !ok {
+			return "", false
+		}
+		f := c.Call.StaticCallee()
+		if f == nil || extName(f) != fname || c.Call.Args[0] != text {
+			return "", false
+		}
+		if s, ok := constString(c.Call.Args[1]); ok {
+			return s, true
+		}
+		if k, ok := constInt(c.Call.Args[1]); ok {
+			return string(rune(k)), true
+		}
+		return "", false
+	}
+	switch x := v.(type) {
+	case *ssa.Phi:
+		// release := c; if i := Index(c, sep); i >= 0 { release = c[:i] }
+		var rt routeText
+		found := false
+		for _, e := range x.Edges {
+			if e == text {
+				continue
+			}
+			t, ok := decodeRouteText(e, text, depth+1)
+			if !ok || t.kind != "before" || found && t != rt {
+				return routeText{}, false
+			}
+			rt, found = t, true
+		}
+		return rt, found
+	case *ssa.Slice:
+		if x.X != text {
+			return routeText{}, false
+		}
+		if x.Low == nil && x.High != nil {
+			for _, fn := range []string{"strings.Index", "strings.IndexByte", "strings.IndexRune"} {
+				if sep, ok := indexOf(x.High, fn); ok {
+					return routeText{"before", sep}, true
+				}
+			}
+		}
+		if x.High == nil && x.Low != nil {
+			for _, fn := range []string{"strings.LastIndex", "strings.LastIndexByte"} {
+				if sep, ok := indexOf(x.Low, fn); ok {
+					return routeText{"afterlast", sep}, true
+				}
+			}
+		}
+	case *ssa.Extract:
+		if c, ok := x.Tuple.(*ssa.Call); ok && x.Index == 0 {
+			if f := c.Call.StaticCallee(); f != nil && extName(f) == "strings.Cut" && c.Call.Args[0] == text {
+				if sep, ok := constString(c.Call.Args[1]); ok {
+					return routeText{"before", sep}, true
+				}
+			}
+		}
+	}
+	return routeText{}, false
+}
+
+// routeLanguage: the texts for which cond holds, as a pattern ("" when cond has another shape)
+func routeLanguage(cond, text ssa.Value) (pat, what string) {
+	class := func(set string) string {
+		var sb strings.Builder
+		for _, r := range set {
+			sb.WriteString(regexp.QuoteMeta(string(r)))
+		}
+		return sb.String()
+	}
+	wrap := func(t routeText, inner string, suffix bool) string {
+		// inner: what the part must look like (unanchored: "contains" form ".*X.*" is given by the caller)
+		switch t.kind {
+		case "whole":
+			if suffix {
+				return `^[\s\S]*` + inner + `$`
+			}
+			return `^[\s\S]*` + inner + `[\s\S]*$`
+		case "before":
+			if len([]rune(t.sep)) != 1 {
+				return ""
+			}
+			ns := `[^` + class(t.sep) + `]*`
+			if suffix {
+				return `^` + ns + inner + `(?:` + regexp.QuoteMeta(t.sep) + `[\s\S]*)?$`
+			}
+			return `^` + ns + inner + `[\s\S]*$`
+		case "afterlast":
+			if len([]rune(t.sep)) != 1 {
+				return ""
+			}
+			ns := `[^` + class(t.sep) + `]*`
+			if suffix {
+				return `^[\s\S]*` + regexp.QuoteMeta(t.sep) + ns + inner + `$`
+			}
+			return `^[\s\S]*` + regexp.QuoteMeta(t.sep) + ns + inner + ns + `$`
+		}
+		return ""
+	}
+	switch c := cond.(type) {
+	case *ssa.Call:
+		f := c.Call.StaticCallee()
+		if f == nil {
+			return "", ""
+		}
+		if pt, what := componentHelperLanguage(f, c, text); pt != "" {
+			return pt, what
+		}
+		if len(c.Call.Args) < 2 {
+			return "", ""
+		}
+		if extName(f) == "(*regexp.Regexp).MatchString" && c.Call.Args[1] == text && regexOfValue != nil {
+			if pt := regexOfValue(c.Call.Args[0]); pt != "" {
+				return pt, "a match of `" + truncPat(pt) + "`"
+			}
+			return "", ""
+		}
+		t, ok := decodeRouteText(c.Call.Args[0], text, 0)
+		if !ok {
+			return "", ""
+		}
+		switch extName(f) {
+		case "strings.ContainsAny":
+			if set, ok := constString(c.Call.Args[1]); ok && set != "" {
+				in := set
+				if t.kind != "whole" {
+					in = strings.ReplaceAll(set, t.sep, "")
+				}
+				if in == "" {
+					return "", ""
+				}
+				return wrap(t, `[`+class(in)+`]`, false), fmt.Sprintf("ContainsAny(%s, %q)", t.describe(), set)
+			}
+		case "strings.Contains":
+			if lit, ok := constString(c.Call.Args[1]); ok && lit != "" && (t.kind == "whole" || !strings.Contains(lit, t.sep)) {
+				return wrap(t, regexp.QuoteMeta(lit), false), fmt.Sprintf("Contains(%s, %q)", t.describe(), lit)
+			}
+		case "strings.ContainsRune":
+			if k, ok := constInt(c.Call.Args[1]); ok {
+				return wrap(t, regexp.QuoteMeta(string(rune(k))), false), fmt.Sprintf("ContainsRune(%s, %q)", t.describe(), rune(k))
+			}
+		case "strings.HasSuffix":
+			if lit, ok := constString(c.Call.Args[1]); ok && lit != "" && (t.kind == "whole" || !strings.Contains(lit, t.sep)) {
+				return wrap(t, regexp.QuoteMeta(lit), true), fmt.Sprintf("HasSuffix(%s, %q)", t.describe(), lit)
+			}
+		}
+	case *ssa.BinOp:
+		if c.Op != token.EQL {
+			return "", ""
+		}
+		for _, pr := range [][2]ssa.Value{{c.X, c.Y}, {c.Y, c.X}} {
+			lit, ok := constString(pr[1])
+			if !ok || lit == "" {
+				continue
+			}
+			t, ok := decodeRouteText(pr[0], text, 0)
+			if !ok || t.kind == "whole" || strings.Contains(lit, t.sep) {
+				continue // text == literal is an exact spelling, not a routing of versions
+			}
+			switch t.kind {
+			case "afterlast":
+				return `^[\s\S]*` + regexp.QuoteMeta(t.sep) + regexp.QuoteMeta(lit) + `$`, fmt.Sprintf("%s == %q", t.describe(), lit)
+			case "before":
+				return `^` + regexp.QuoteMeta(lit) + `(?:` + regexp.QuoteMeta(t.sep) + `[\s\S]*)?$`, fmt.Sprintf("%s == %q", t.describe(), lit)
+			}
+		}
+	}
+	return "", ""
+}
+
+// componentHelperLanguage: a repo helper func(s string) bool that ranges over strings.Split(s, sep) and
+// returns true as soon as a piece equals one of some literals (false after the loop): "some component
+// is one of L".
+func componentHelperLanguage(f *ssa.Function, call *ssa.Call, text ssa.Value) (string, string) {
+	if f.Blocks == nil || len(f.Params) != 1 || len(call.Call.Args) != 1 || call.Call.Args[0] != text || !isStringType(f.Params[0].Type()) {
+		return "", ""
+	}
+	if f.Signature.Results().Len() != 1 || !isBoolType(f.Signature.Results().At(0).Type()) {
+		return "", ""
+	}
+	var split *ssa.Call
+	sep := ""
+	for _, b := range f.Blocks {
+		for _, ins := range b.Instrs {
+			if c, ok := ins.(*ssa.Call); ok {
+				if g := c.Call.StaticCallee(); g != nil && extName(g) == "strings.Split" && c.Call.Args[0] == ssa.Value(f.Params[0]) {
+					if s, ok := constString(c.Call.Args[1]); ok && len([]rune(s)) == 1 {
+						split, sep = c, s
+					}
+				}
+			}
+		}
+	}
+	loops := findLoops(f)
+	if split == nil || len(loops) != 1 {
+		return "", ""
+	}
+	l := loops[0]
+	isPiece := func(v ssa.Value) bool {
+		u, ok := v.(*ssa.UnOp)
+		if !ok {
+			return false
+		}
+		ia, ok := u.X.(*ssa.IndexAddr)
+		return ok && ia.X == ssa.Value(split)
+	}
+	var lits []string
+	for _, b := range f.Blocks {
+		ret, ok := b.Instrs[len(b.Instrs)-1].(*ssa.Return)
+		if !ok {
+			continue
+		}
+		k, isC := ret.Results[0].(*ssa.Const)
+		if !isC || k.Value == nil {
+			return "", ""
+		}
+		if !constant.BoolVal(k.Value) {
+			if l.body[b] {
+				return "", "" // a false answer from inside the loop: another shape
+			}
+			continue
+		}
+		// a true answer: every edge into b compares a piece with a literal
+		for _, pr := range b.Preds {
+			iff, ok := pr.Instrs[len(pr.Instrs)-1].(*ssa.If)
+			if !ok || pr.Succs[0] != b {
+				return "", ""
+			}
+			bo, ok := iff.Cond.(*ssa.BinOp)
+			if !ok || bo.Op != token.EQL {
+				return "", ""
+			}
+			lit, okL := constString(bo.Y)
+			if !okL || !isPiece(bo.X) || strings.Contains(lit, sep) {
+				return "", ""
+			}
+			lits = append(lits, regexp.QuoteMeta(lit))
+		}
+	}
+	if len(lits) == 0 {
+		return "", ""
+	}
+	sort.Strings(lits)
+	qs := regexp.QuoteMeta(sep)
+	return `(?:^|` + qs + `)(?:` + strings.Join(lits, "|") + `)(?:` + qs + `|$)`, fmt.Sprintf("%s (a %q-separated component is one of %v)", f.Name(), sep, lits)
+}
+
+func (t routeText) describe() string {
+	switch t.kind {
+	case "before":
+		return fmt.Sprintf("the text before the first %q", t.sep)
+	case "afterlast":
+		return fmt.Sprintf("the text after the last %q", t.sep)
+	}
+	return "the constraint"
+}
+
+func ruleRouteLang(p *Prog, r *Report) {
+	for _, e := range p.Ecos {
+		pats, unresolved := p.ecoGate(e)
+		if os.Getenv("GVDEBUG") == "route" {
+			for _, gp := range pats {
+				fmt.Fprintf(os.Stderr, "route %s: gate %q fold=%v prefixes=%q\n", e.Name, truncPat(gp.ri.Pattern), gp.fold, gp.prefixes)
+			}
+			fmt.Fprintf(os.Stderr, "route %s: unresolved=%v\n", e.Name, unresolved)
+		}
+		if len(pats) == 0 || len(unresolved) > 0 {
+			continue
+		}
+		for _, fn := range p.Representatives(sortFns(p, p.RepoReachable(e.NewRng))) {
+			if fn.Pkg == nil || fn.Pkg.Pkg != e.VerT.Obj().Pkg() {
+				continue
+			}
+			var opBlock *ssa.BasicBlock
+			var text ssa.Value
+			for _, b := range fn.Blocks {
+				for _, ins := range b.Instrs {
+					c, ok := ins.(*ssa.Call)
+					if !ok {
+						continue
+					}
+					f := c.Call.StaticCallee()
+					if f == nil || extName(f) != "strings.HasPrefix" {
+						continue
+					}
+					ops, _ := constArrayOf(c.Call.Args[1])
+					k := 0
+					for _, o := range ops {
+						if _, ok := opTable[o]; ok {
+							k++
+						}
+					}
+					if k >= 2 && opBlock == nil {
+						opBlock, text = b, c.Call.Args[0]
+					}
+				}
+			}
+			if opBlock == nil {
+				continue
+			}
+			// blocks from which the operator table can still be reached
+			reach := map[*ssa.BasicBlock]bool{}
+			var back func(b *ssa.BasicBlock)
+			back = func(b *ssa.BasicBlock) {
+				if reach[b] {
+					return
+				}
+				reach[b] = true
+				for _, pr := range b.Preds {
+					back(pr)
+				}
+			}
+			back(opBlock)
+			afterOp := map[*ssa.BasicBlock]bool{}
+			var fwd func(b *ssa.BasicBlock)
+			fwd = func(b *ssa.BasicBlock) {
+				if afterOp[b] {
+					return
+				}
+				afterOp[b] = true
+				for _, sc := range b.Succs {
+					fwd(sc)
+				}
+			}
+			fwd(opBlock)
+			for _, b := range fn.Blocks {
+				if !reach[b] || afterOp[b] {
+					continue
+				}
+				iff, ok := b.Instrs[len(b.Instrs)-1].(*ssa.If)
+				if !ok {
+					continue
+				}
+				// the true edge leaves for good
+				if reach[b.Succs[0]] {
+					continue
+				}
+				regexOfValue = func(v ssa.Value) string {
+					if ris := p.regexSetOf(v); len(ris) == 1 && ris[0].Err == nil {
+						return ris[0].Pattern
+					}
+					return ""
+				}
+				pat, what := routeLanguage(iff.Cond, text)
+				if pat == "" {
+					continue
+				}
+				// tests on the whole text that are known to have failed on the way here narrow the texts
+				// that reach this one ("contains none of these characters")
+				var narrowed []string
+				domEdges(b, func(cond ssa.Value, tv bool) bool {
+					if tv {
+						return false
+					}
+					if c, ok := cond.(*ssa.Call); ok && len(c.Call.Args) == 2 && c.Call.Args[0] == text {
+						if f := c.Call.StaticCallee(); f != nil {
+							set := ""
+							switch extName(f) {
+							case "strings.ContainsAny":
+								set, _ = constString(c.Call.Args[1])
+							case "strings.Contains":
+								if l, ok := constString(c.Call.Args[1]); ok && len([]rune(l)) == 1 {
+									set = l
+								}
+							case "strings.ContainsRune":
+								if k, ok := constInt(c.Call.Args[1]); ok {
+									set = string(rune(k))
+								}
+							}
+							if set != "" {
+								var sb strings.Builder
+								for _, ch := range set {
+									sb.WriteString(regexp.QuoteMeta(string(ch)))
+								}
+								narrowed = append(narrowed, "^[^"+sb.String()+"]*$")
+							}
+						}
+					}
+					return false
+				})
+				key := fmt.Sprintf("%s: routing test %s before the operator table", p.FnKey(fn), what)
+				bad, und := "", ""
+				for _, gp := range pats {
+					if len(gp.prefixes) != 1 || gp.prefixes[0] != "" {
+						continue
+					}
+					vp := gp.ri.Pattern
+					if gp.fold {
+						vp = "(?i:" + vp + ")"
+					}
+					hit, w, why := reIntersects(append([]string{vp, pat}, narrowed...)...)
+					if why != "" {
+						und = why
+					} else if hit {
+						bad = fmt.Sprintf("the valid version %q satisfies the test: a comparator written before it (>=%s) is sent to the other parser before its operator is seen", w, w)
+						break
+					}
+				}
+				at := p.Pos(iff.Cond.Pos())
+				if at == "-" {
+					at = p.FnPos(fn)
+				}
+				switch {
+				case bad != "":
+					r.Bad("R-ROUTE", key, at, bad)
+				case und != "":
+					r.Und("R-ROUTE", key, at, "intersection not decided: "+und)
+				default:
+					r.Ok("R-ROUTE", key, at, "no string the version constructor accepts satisfies the test (product automaton)")
+				}
+			}
+		}
+	}
 }
 
 func init() {
@@ -764,6 +1268,7 @@ func ruleQuant(p *Prog, r *Report) {
 		}
 	}
 	r.Floor("R-QUANT", 20)
+	ruleQuantPre(p, r)
 }
 
 func init() {
@@ -956,4 +1461,93 @@ func ruleAllStored(p *Prog, r *Report) {
 
 func init() {
 	register("C02", "", ruleAllStored)
+}
+
+// ---- R-QUANT-PRE: Contains does not answer from the candidate alone ------------------------------------------
+//
+// R-QUANT classifies the loops of Contains. An answer given in front of them - a return that no loop
+// reaches - is part of the range's meaning too: if it is taken or not depending on the candidate (a
+// pre-release filter, a fast reject against precomputed bounds), the range is no longer the
+// intersection / union of its comparators. Such a return may depend on the range alone (no comparators)
+// or on the candidate being nil.
+func ruleQuantPre(p *Prog, r *Report) {
+	for _, e := range p.Ecos {
+		fn := e.Contains
+		key := fmt.Sprintf("%s: Contains answers only through its comparators", e.Name)
+		if fn == nil || len(fn.Params) != 2 || fn.Blocks == nil {
+			continue
+		}
+		// values derived from the candidate
+		taint := map[ssa.Value]bool{fn.Params[1]: true}
+		for changed := true; changed; {
+			changed = false
+			for _, b := range fn.Blocks {
+				for _, ins := range b.Instrs {
+					v, ok := ins.(ssa.Value)
+					if !ok || taint[v] {
+						continue
+					}
+					for _, op := range ins.Operands(nil) {
+						if *op != nil && taint[*op] {
+							taint[v] = true
+							changed = true
+							break
+						}
+					}
+				}
+			}
+		}
+		loops := findLoops(fn)
+		inLoop := map[*ssa.BasicBlock]bool{}
+		for _, l := range loops {
+			for b := range l.body {
+				inLoop[b] = true
+			}
+		}
+		// blocks reachable from a loop
+		after := map[*ssa.BasicBlock]bool{}
+		var mark func(b *ssa.BasicBlock)
+		mark = func(b *ssa.BasicBlock) {
+			if after[b] {
+				return
+			}
+			after[b] = true
+			for _, s := range b.Succs {
+				mark(s)
+			}
+		}
+		for _, l := range loops {
+			mark(l.header)
+		}
+		var bad []string
+		n := 0
+		for _, b := range fn.Blocks {
+			if _, ok := b.Instrs[len(b.Instrs)-1].(*ssa.Return); !ok || after[b] || inLoop[b] {
+				continue
+			}
+			n++
+			if len(loops) == 0 {
+				continue // no fold in this function (it forwards to one): R-QUANT's subject
+			}
+			if domEdges(b, func(cond ssa.Value, tv bool) bool {
+				if !taint[cond] {
+					return false
+				}
+				// candidate == nil / != nil is not a property of the version
+				if bo, ok := cond.(*ssa.BinOp); ok && (isNilConst(bo.X) || isNilConst(bo.Y)) {
+					return false
+				}
+				return true
+			}) {
+				bad = append(bad, p.Pos(b.Instrs[len(b.Instrs)-1].Pos()))
+			}
+		}
+		sort.Strings(bad)
+		if len(bad) > 0 {
+			r.Und("R-QUANT-PRE", key, p.FnPos(fn), fmt.Sprintf("the return at %s is taken in front of the loop over the comparators, on a condition computed from the candidate version: that answer does not come from the comparators; whether it agrees with their intersection (union) for every candidate is not decided", bad[0]))
+		} else {
+			r.Ok("R-QUANT-PRE", key, p.FnPos(fn), fmt.Sprintf("%d return(s) in front of the comparator loop, none conditional on the candidate", n))
+		}
+	}
+	r.Floor("R-QUANT-PRE", 20)
 }
